@@ -1,7 +1,7 @@
 (* C02 - Injector result equals sequential evaluation of the declared graph. *)
 From Coq Require Import List Arith Bool.
 Import ListNotations.
-Require Import Sem2 Safe Live Denote GenU GenSound Resolve.
+Require Import Sem2 Safe Live Denote GenU GenSound Resolve Spec.
 
 (* In every run of a well-synchronised program a provider returns at most once, with one argument vector. *)
 Theorem C02_once : forall p ls s n vs ws, wf p -> Sem2.run p (Sem2.init p) ls = Some s ->
@@ -66,6 +66,36 @@ Theorem C02_one_node_per_provider : forall d g, unew_graph d = Gen.OK g -> exist
   forall n n' pj, n <> 0 -> n' <> 0 -> nth_error (Bfs.nodes (ub g)) n = Some (Bfs.NProv pj) -> nth_error (Bfs.nodes (ub g)) n' = Some (Bfs.NProv pj) -> n = n'.
 Proof. exact prov_nodes. Qed.
 Print Assumptions C02_one_node_per_provider.
+
+(* THE STATEMENT OF C02, for all accepted declarations.  spec_den pm provs t v says: v is the value of type t obtained from
+   the declaration alone - the injector argument of type t when no declared provider supplies t, otherwise result gi of the
+   supplying provider applied to the values of the types it requires.  It mentions neither the generator's graph, nor
+   Async, nor pools, channels or threads, and it is a function (one value per type).  In every run of the emitted program
+   (any interleaving, latency, failure, cancellation) in which the provider of the requested type has returned, the
+   variable the injector returns holds exactly that value. *)
+Theorem C02_result_is_declared_value : forall d g, unew_graph d = Gen.OK g ->
+  exists st pm, Threads.build (unp g) (upool g) (udeps g) (uisasync g) (uargs g) = Some st /\ dpm d = Some (pm, uprovs g) /\
+  forall ls s vs, Sem2.run (uprog g st) (Sem2.init (uprog g st)) ls = Some s -> In (ExitOk 0 vs) (s_trace s) ->
+    exists v, lookup (0, uret g) (s_store s) = Some v /\ spec_den pm (uprovs g) (Gen.d_ret d) (trv g v) /\
+      forall v', spec_den pm (uprovs g) (Gen.d_ret d) v' -> v' = trv g v.
+Proof. exact result_is_spec_value. Qed.
+Print Assumptions C02_result_is_declared_value.
+
+(* Marking any subset of providers Async (or fallible) never changes the value: two declarations that differ only in those
+   marks give the requested type the same declared value. *)
+Theorem C02_marks_do_not_change_value : forall d d' pm l pm' l' v v',
+  Gen.d_ret d = Gen.d_ret d' -> Forall2 same_shape (Gen.d_provs d) (Gen.d_provs d') ->
+  dpm d = Some (pm, l) -> dpm d' = Some (pm', l') ->
+  spec_den pm l (Gen.d_ret d) v -> spec_den pm' l' (Gen.d_ret d') v' -> v = v'.
+Proof. exact marks_do_not_change_value. Qed.
+Print Assumptions C02_marks_do_not_change_value.
+
+(* Providers that are not needed are never invoked: every node of the graph (hence every provider call in the emitted
+   program) is transitively required by the provider of the requested type. *)
+Theorem C02_only_needed_providers : forall d g, unew_graph d = Gen.OK g ->
+  forall n, n < nn g -> Relation_Operators.clos_refl_trans nat (feeds g) n 0.
+Proof. exact all_nodes_needed. Qed.
+Print Assumptions C02_only_needed_providers.
 
 (* non-vacuity: the sequential evaluator succeeds on a concrete program and the concurrent run stores that value *)
 Definition ex_prog : prog :=
